@@ -49,6 +49,8 @@ def realise(ctx, org, k):
         cid, raises = s["cl_id"], s["cl_raises"]
         def cfun(cid=cid, raises=raises):
             rec(k="cleanup", cid=cid, raised=raises)
+            if raises and CASE.get("fault_kind") == "kbd":
+                raise KeyboardInterrupt()
             if raises:
                 raise RuntimeError("cleanup%d" % cid)
         if s["cl_layer"]:
